@@ -22,7 +22,18 @@ pub struct C15;
 /// `A` is a closed prefix: ends in a consumed ';' or statement-level comment and leaves the lexer
 /// in its initial configuration (a *subset* of the property's premise, see DESIGN C15)
 pub fn is_closed(a: &str, d: &Dump) -> bool {
-    if !d.verif.end_is_initial() || !d.errs.is_empty() {
+    if !d.verif.end_is_initial() {
+        return false;
+    }
+    is_closed_syntactically(a, d)
+}
+
+/// the part of closedness that does not rely on the lexer's own end-of-input snapshot; used
+/// alone for prefixes that are closed *by construction* (well-formed generated programs: C12 says
+/// they end in the initial configuration, so on a correct lexer nothing is lost, and a lexer
+/// that leaks state past such a prefix is not allowed to hide behind its own snapshot)
+pub fn is_closed_syntactically(a: &str, d: &Dump) -> bool {
+    if !d.errs.is_empty() {
         return false;
     }
     let n = d.toks.len();
@@ -59,6 +70,7 @@ const CLOSED: &[&str] = &[
     "data a; x=1; run;", "%let a=1;", "%put hello &x;", "%macro m(a,b=1); %put &a; %mend;", "proc sort data=a; by x; run;", "x = 'a;b';", "%if &a %then %do; y=2; %end;", "* comment;", "%* mc;",
     "datalines;\n1 2\n;", "cards4;\na;b\n;;;;", "%do i=1 %to 3; z; %end;", "a = %eval(1+2);", "b = \"x&y.z\";", "%m(1,b=2);", ";", "%global g;", "%goto lbl;", "%lbl: ;", "\u{e9}=1;", "x\n=\n2\n;",
     "/* c */", "x='it''s';", "y=\"a\"\"b\";", "%let s=%str(a%'b);", "z;\n/* c */\n", "%macro q; %mend q;", "%m;", "%do %while(&i<3); %end;",
+    "%macro f;x%mend;", "%macro g(a,b); &a + &b %mend g;", "%macro h(s); %length(&s) - 1 %mend;", "%if &c %then %do; keep x %end;", "%macro k; %if 1 %then %do; y %end; %mend;",
 ];
 const CLOSERS: &[&str] = &["", ";", " ;", "*/;", "';", "\";", ");", "));", "%end;", "%mend;", ";%mend;", ";%end;", "\n;", ";;;;"];
 
@@ -221,7 +233,8 @@ impl Property for C15 {
                     return vd;
                 }
             };
-            if !is_closed(a, &da) {
+            let by_construction = matches!(case.gen, "A:gram" | "A:closed-list");
+            if !(if by_construction { is_closed_syntactically(a, &da) } else { is_closed(a, &da) }) {
                 vd.discard = Some("A is not a closed prefix");
                 return vd;
             }
